@@ -15,9 +15,9 @@
    invariants of ZadoffChu.tla are evaluated on recorded calls as well.
 
    Trace file (JSON): [ [ event, ... ], ... ] with
-     {op:"zc",   n, u, e:[..]}                      calcBaseZC(n, u)
+     {op:"zc",   n, u, q, e:[..]}                   calcBaseZC(n, u, q)
      {op:"ext",  n, size, src:[..]}                 get_extended_ZF(arange(n), size)
-     {op:"root", size, u, nzc, len, e:[..]}         RootSequence(u, size): .Nzc, .size, seq_array()
+     {op:"root", size, u, given, nzc, len, e:[..]}  RootSequence(u, size[, Nzc = given]): .Nzc, .size, seq_array()
      {op:"ue",   fam, size, u, ncs, cover, normalize, nzc, norm2, t:[[..] per cover row]}      *)
 EXTENDS ZadoffChu, IOUtils
 
@@ -39,7 +39,7 @@ UeGrid(N, D, e, r, sign) == (e * D - 2 * N * r + (IF sign < 0 THEN N * D ELSE 0)
 \* the machine's answer for one logged call: the case record and the values to compare
 Machine(ev) ==
   CASE ev.op = "zc" ->
-         LET e == ZcSeq(ev.n, ev.u)
+         LET e == ZcSeqQ(ev.n, ev.u, ev.q)
          IN [case |-> [kind |-> IF ev.n <= HeavyMax /\ ev.n % 2 = 1 THEN "zc" ELSE "zc-long",
                        n |-> ev.n, u |-> ev.u, e |-> e],
              cmp |-> << <<"sequence", ev.e, e>> >>]
@@ -49,9 +49,11 @@ Machine(ev) ==
                        e |-> ExtSeq(ZcSeq(ev.n, 1), ev.size)],
              cmp |-> << <<"length", Len(ev.src), ev.size>>, <<"source index", ev.src, src>> >>]
     [] ev.op = "root" ->
-         LET nzc == TablePick(ev.size)
+         \* RootSequence(u, size, Nzc = given) skips the table (given = 0: not given)
+         LET nzc == IF ev.given > 0 THEN ev.given ELSE TablePick(ev.size)
              e   == ExtSeq(ZcSeq(nzc, ev.u), ev.size)
-         IN [case |-> [kind |-> "root", size |-> ev.size, u |-> ev.u, nzc |-> nzc,
+         IN [case |-> [kind |-> IF ev.given > 0 THEN "root-explicit" ELSE "root",
+                       size |-> ev.size, u |-> ev.u, nzc |-> nzc,
                        idx |-> [i \in 1..ev.size |-> i - 1], e |-> e],
              cmp |-> << <<"Nzc", ev.nzc, nzc>>, <<"size", ev.len, ev.size>>, <<"sequence", ev.e, e>> >>]
     [] ev.op = "ue" ->
